@@ -34,6 +34,15 @@ func (e c10Entry) String() string {
 var c10Base = []string{"https://example.com/actors/alice", "https://social.example.org/users/bob", "https://example.com/actors/carol", "https://fedi.test/~dan",
 	string(ap.PublicNS)}
 
+// c10NilLike: the nil item and a nil pointer of a vocabulary type - nobody, either way.
+func c10NilLike(it ap.Item) bool {
+	if it == nil {
+		return true
+	}
+	v := reflect.ValueOf(it)
+	return v.Kind() == reflect.Ptr && v.IsNil()
+}
+
 func c10Item(e c10Entry, variant int) ap.Item {
 	if e.Who < 0 {
 		return nil
@@ -49,6 +58,8 @@ func c10Item(e c10Entry, variant int) ap.Item {
 	case "collection":
 		// the addressee given as an embedded collection object with the addressee's id (a followers collection that was dereferenced)
 		return &ap.OrderedCollection{ID: ap.IRI(id), Type: ap.OrderedCollectionType, TotalItems: 2, OrderedItems: ap.ItemCollection{ap.IRI("https://example.com/members/1")}}
+	case "nilptr":
+		return (*ap.Actor)(nil)
 	case "idless":
 		// an embedded actor that has no id: nobody that can be addressed, and nothing it could be a repeated mention of
 		return &ap.Actor{Type: ap.PersonType, PreferredUsername: ap.DefaultNaturalLanguageValue(fmt.Sprintf("anonymous-%d", e.Who))}
@@ -110,7 +121,7 @@ func (c c10Case) String() string {
 }
 
 func c10Key(it ap.Item) string {
-	if it == nil {
+	if c10NilLike(it) {
 		return "nil"
 	}
 	l := it.GetLink()
@@ -168,7 +179,7 @@ func c10Run(c c10Case) (ds []keyed, dupPattern string) {
 	dup := map[string]bool{}
 	scan := func(name string, l ap.ItemCollection, keep bool) {
 		for i, it := range l {
-			if it == nil {
+			if c10NilLike(it) {
 				if keep {
 					wantLists[name] = append(wantLists[name], "nil")
 				}
@@ -188,7 +199,7 @@ func c10Run(c c10Case) (ds []keyed, dupPattern string) {
 			if seen[k] {
 				where := "across-lists"
 				for _, prev := range l[:i] {
-					if prev != nil && c10Key(prev) == k {
+					if !c10NilLike(prev) && c10Key(prev) == k {
 						where = "within-list"
 					}
 				}
@@ -255,7 +266,7 @@ func c10Run(c c10Case) (ds []keyed, dupPattern string) {
 	if blockedKey != "" {
 		for _, name := range c10Order {
 			for _, it := range v.FieldByName(name).Interface().(ap.ItemCollection) {
-				if it != nil && c10Key(it) == blockedKey {
+				if !c10NilLike(it) && c10Key(it) == blockedKey {
 					ds = append(ds, keyed{"recipients Block still-addressed " + name, "the blocked object is still in " + name})
 				}
 			}
@@ -289,7 +300,7 @@ func TestC10(t *testing.T) {
 	}
 	build(nil)
 	// second alphabet: alice, and two other addressees whose ids differ from hers only in the query
-	alpha = []c10Entry{{0, "iri"}, {0, "near"}, {0, "near-object"}, {0, "opaque"}, {1, "opaque"}, {1, "collection"}, {2, "idless"}}
+	alpha = []c10Entry{{0, "iri"}, {0, "near"}, {0, "near-object"}, {0, "opaque"}, {1, "opaque"}, {1, "collection"}, {2, "idless"}, {3, "nilptr"}}
 	first := len(lists)
 	maxLen = r.Pick(2, 3)
 	build(nil)
@@ -361,7 +372,7 @@ func TestC10(t *testing.T) {
 		r.Exhaustive("pairs", !r.Replaying())
 	}
 
-	forms := []string{"iri", "iri", "actor", "object", "variant", "near", "near-object", "opaque", "collection", "idless"}
+	forms := []string{"iri", "iri", "actor", "object", "variant", "near", "near-object", "opaque", "collection", "idless", "nilptr"}
 	r.Rapid(t, "random", r.Pick(4000, 30000), func(t *rapid.T) {
 		gt := rapid.SampledFrom(c10Types).Draw(t, "gotype")
 		c := c10Case{GoType: gt, VType: string(rapid.SampledFrom(vocab.NamesFor(gt)).Draw(t, "vtype")), Lists: map[string][]c10Entry{}}
